@@ -349,25 +349,25 @@ func (m *Markdown) renderInlineNode(w io.Writer, node ast.Node, src []byte) erro
 		return err
 	case *ast.CodeSpan:
 		content := codeSpanContent(n, src)
-		return m.renderTemplate(w, "code_span", map[string]any{
+		return m.renderInlineTemplate(w, "code_span", map[string]any{
 			"content": content,
 		})
 	case *ast.Emphasis:
 		content := m.inlineContent(n, src)
-		return m.renderTemplate(w, "emphasis", map[string]any{
+		return m.renderInlineTemplate(w, "emphasis", map[string]any{
 			"level":   n.Level,
 			"content": content,
 		})
 	case *ast.Link:
 		content := m.inlineContent(n, src)
-		return m.renderTemplate(w, "link", map[string]any{
+		return m.renderInlineTemplate(w, "link", map[string]any{
 			"href":    infoString(n.Destination),
 			"title":   infoString(n.Title),
 			"content": content,
 		})
 	case *ast.Image:
 		alt := inlineText(n, src)
-		return m.renderTemplate(w, "image", map[string]any{
+		return m.renderInlineTemplate(w, "image", map[string]any{
 			"src":   infoString(n.Destination),
 			"alt":   alt,
 			"title": infoString(n.Title),
@@ -379,7 +379,7 @@ func (m *Markdown) renderInlineNode(w io.Writer, node ast.Node, src []byte) erro
 		if n.AutoLinkType == ast.AutoLinkEmail {
 			href = "mailto:" + url
 		}
-		return m.renderTemplate(w, "autolink", map[string]any{
+		return m.renderInlineTemplate(w, "autolink", map[string]any{
 			"href":  href,
 			"label": label,
 		})
@@ -389,15 +389,16 @@ func (m *Markdown) renderInlineNode(w io.Writer, node ast.Node, src []byte) erro
 			seg := n.Segments.At(i)
 			buf.Write(seg.Value(src))
 		}
-		return m.renderTemplate(w, "raw_html", map[string]any{
+		return m.renderInlineTemplate(w, "raw_html", map[string]any{
 			"content": buf.String(),
 		})
 	case *east.Strikethrough:
 		content := m.inlineContent(n, src)
-		return m.renderTemplate(w, "strikethrough", map[string]any{
+		return m.renderInlineTemplate(w, "strikethrough", map[string]any{
 			"content": content,
 		})
 	case *east.TaskCheckBox:
+		// (the reference writes a space after the checkbox: the serialiser's line break stands for it)
 		return m.renderTemplate(w, "task_checkbox", map[string]any{
 			"checked": n.IsChecked,
 		})
@@ -428,6 +429,18 @@ func (m *Markdown) renderTemplate(w io.Writer, name string, data map[string]any)
 	}
 
 	_, err := io.WriteString(w, result)
+	return err
+}
+
+// renderInlineTemplate renders the template of an inline element. The serialiser ends every
+// element with a line break; inside a line of text that line break would be white space between
+// the element and what follows it ("**bold**, then" must not become "bold , then").
+func (m *Markdown) renderInlineTemplate(w io.Writer, name string, data map[string]any) error {
+	var buf bytes.Buffer
+	if err := m.renderTemplate(&buf, name, data); err != nil {
+		return err
+	}
+	_, err := io.WriteString(w, strings.TrimSuffix(buf.String(), "\n"))
 	return err
 }
 
